@@ -20,6 +20,7 @@ def run(tier, seed):
             cases.append({"name": "t%d" % len(cases), "kind": "impostor", "impostor": "othercert", "proto": p})
             cases.append({"name": "t%d" % len(cases), "kind": "impostor", "impostor": "nocert", "proto": p})
             cases.append({"name": "t%d" % len(cases), "kind": "impostor", "impostor": "chain", "proto": p})
+            cases.append({"name": "t%d" % len(cases), "kind": "impostor", "impostor": "replay", "proto": p})
         # the plugin alone, with a host certificate that reached it damaged
         for p in ["netrpc", "grpc"]:
             cases.append({"name": "t%d" % len(cases), "kind": "mangled", "impostor": rng.choice(["firstline", "truncated", "garbage"]), "proto": p})
@@ -44,7 +45,8 @@ def run(tier, seed):
                           {"case": c, "observation": o})
             continue
         if c["kind"] == "impostor":
-            how = {"nocert": "announced no certificate and served in plaintext", "chain": "announced a certificate it has no key for and served with another, appending the announced one to its chain"}.get(
+            how = {"nocert": "announced no certificate and served in plaintext", "chain": "announced a certificate it has no key for and served with another, appending the announced one to its chain",
+                   "replay": "announced a fresh certificate and served with the key pair of an earlier launch from the same ClientConfig"}.get(
                 c.get("impostor"), "announced one certificate and served with another")
             rep.violation("c12:impostor:%s:%s" % (c.get("impostor", "othercert"), c["proto"]), "%s: a plugin that %s was used successfully (or Start failed to complete): %s" % (c["proto"], how, json.dumps(o["out"])),
                           {"case": c, "observation": o})
